@@ -51,6 +51,10 @@ def check(model: Model, rep: Report, tier: str):
         _h7(model, rep, _cg, _Eff(model, _cg), rule="C09.P13", keep=lambda f: "/structure/" in f.module.relpath or "/language/" in f.module.relpath)
     from .c17 import y6
     from .common import share_rule
+    from .c06 import u5 as _u5
+    with rep.isolated():
+        share_rule(rep, model, _u5, "C09.P14", "the unrolled circuit is exported with the counts in force after unrolling: nr_of_repetitions is computed on every read (= C06.U5); a "
+                   "cached count makes the exporter repeat the already unrolled rounds again")
     with rep.isolated():
         share_rule(rep, model, y6, "C09.P5", "descriptions derived from a Surface-17 layout keep exactly the involved gates, recompute parking, map identifiers bijectively and carry the requested "
                    "refocusing option (= C17.Y6): 'with and without qubit refocusing' is honoured for every contiguous sub-chain")
